@@ -39,7 +39,7 @@ def units(tier, seed):
     if tier == 'thorough':
         for i in range(len(TOKENS)):
             us.append(('exh3', i))
-    n = 6 if tier == 'quick' else 90
+    n = 6 if tier == 'quick' else 180
     for i in range(n):
         us.append(('chars', i))
         us.append(('tokens', i))
@@ -49,7 +49,7 @@ def units(tier, seed):
     us.append(('nesting',))
     us.append(('macrocalls',))
     us.append(('paths',))
-    for i in range(2 if tier == 'quick' else 24):
+    for i in range(2 if tier == 'quick' else 96):
         us.append(('literalerrs', i))
     return us
 
